@@ -33,7 +33,7 @@ META = dict(
                'photutils.detection.peakfinder:find_peaks',
                'photutils.centroids.core:centroid_com',
                'photutils.profiles.core:ProfileBase.__init__'],
-    bounds=('15 entry points x representation in {float32, int16, int32, '
+    bounds=('20 entry points x representation in {float32, int16, int32, '
             'uint16, int64, big-endian float64, big-endian float32, Fortran '
             'order, strided view, MaskedArray with empty mask, Quantity, '
             'NDData (where accepted), mixed units} on an integer-valued '
@@ -222,6 +222,72 @@ def _entries():
         r = calc_total_error(d, bk, gain)
         return dict(err=val(r)), unit_of(r)
     E['calc_total_error'] = (True, False, e_toterr)
+
+    # ---- second batch ---------------------------------------------------
+    def e_est(d, e, nd):
+        import photutils.background as pb
+        from astropy.stats import SigmaClip
+        out = {}
+        unit = None
+        for name in ('MeanBackground', 'MedianBackground',
+                     'ModeEstimatorBackground', 'MMMBackground',
+                     'SExtractorBackground', 'BiweightLocationBackground',
+                     'StdBackgroundRMS', 'MADStdBackgroundRMS',
+                     'BiweightScaleBackgroundRMS'):
+            r = getattr(pb, name)(sigma_clip=SigmaClip(3.0))(d)
+            out[name] = val(r)
+            unit = unit_of(r)
+        return out, unit
+    E['background-estimators'] = (True, False, e_est)
+
+    def e_local(d, e, nd):
+        from photutils.background import LocalBackground
+        r = LocalBackground(4, 8)(d, np.array([10.0, 30.0, 13.0]),
+                                  np.array([9.0, 12.0, 29.0]))
+        return dict(local=val(r)), unit_of(r)
+    E['LocalBackground'] = (True, False, e_local)
+
+    def e_thr(d, e, nd):
+        r = detect_threshold(d, 2.5)
+        bk = q(np.full(val(d).shape, 20.0), d)
+        r2 = detect_threshold(d, 2.0, background=bk, error=e)
+        return dict(thr=val(r), thr2=val(r2)), unit_of(r)
+    E['detect_threshold'] = (True, False, e_thr)
+
+    def e_props(d, e, nd):
+        from photutils.morphology import data_properties
+        sub = d[3:16, 3:18]
+        bk = q(np.full(val(sub).shape, 20.0), d)
+        pr = data_properties(sub, background=bk)
+        out = {a: val(getattr(pr, a)) for a in
+               ('xcentroid', 'ycentroid', 'semimajor_sigma',
+                'semiminor_sigma', 'segment_flux', 'max_value')}
+        return out, unit_of(pr.segment_flux)
+    E['data_properties'] = (True, False, e_props)
+
+    def e_dophot(d, e, nd):
+        from photutils.aperture import EllipticalAperture
+        ap = EllipticalAperture(POS, 4.0, 2.5, theta=0.5)
+        s_, se = ap.do_photometry(d, error=e)
+        ao = ap.area_overlap(d)
+        m = ap.to_mask()[0]
+        return dict(sum=val(s_), err=val(se), area=val(ao),
+                    cutout=val(m.cutout(d)), mult=val(m.multiply(d)),
+                    vals=val(m.get_values(d))), unit_of(s_)
+    E['do_photometry+ApertureMask'] = (True, False, e_dophot)
+
+    def e_fwhm(d, e, nd):
+        from photutils.psf import fit_fwhm
+        r = fit_fwhm(d, xypos=POS, fit_shape=7, error=e)
+        return dict(fwhm=val(r)), None
+    E['fit_fwhm'] = (False, False, e_fwhm)
+
+    def e_deblend(d, e, nd):
+        from photutils.segmentation import deblend_sources
+        segm = detect_sources(d, q(60.0, d), 5)
+        out = deblend_sources(d, segm, 5, nlevels=8, progress_bar=False)
+        return dict(labels=np.asarray(out.data, float)), None
+    E['detect+deblend'] = (True, False, e_deblend)
     return E
 
 
@@ -262,7 +328,9 @@ def _check(entry, rep, twin=False):
                 return None
             if entry in ('detect_sources', 'find_peaks', 'Background2D',
                          'centroids', 'DAOStarFinder', 'IRAFStarFinder',
-                         'StarFinder', 'calc_total_error'):
+                         'StarFinder', 'calc_total_error',
+                         'background-estimators', 'LocalBackground',
+                         'data_properties', 'detect+deblend'):
                 return None      # no unit-less second input in that call
             return 'mixing a Quantity with a unit-less error did not raise'
         if rep == 'nddata':
@@ -288,7 +356,7 @@ def _check(entry, rep, twin=False):
         except Exception as ex:  # noqa
             return f'{rep} input failed although float64 works: {ex!r}'
     if rep == 'quantity' and base and unit is None and entry not in (
-            'centroids',):
+            'centroids', 'fit_fwhm', 'detect+deblend'):
         return 'Quantity input: output carries no unit'
     rtol, atol = (2e-4, 2e-3) if rep in ('float32', '>f4') else (1e-9, 1e-9)
     if entry == 'Background2D' and rep in ('int16', 'int32', 'uint16',
@@ -297,7 +365,8 @@ def _check(entry, rep, twin=False):
         out = {k: np.round(v) for k, v in out.items()}
         rtol, atol = 0, 1.0      # documented integer-output rounding
     if entry in ('DAOStarFinder', 'IRAFStarFinder', 'StarFinder',
-                 'PSFPhotometry', 'centroids') and rep in ('float32', '>f4'):
+                 'PSFPhotometry', 'centroids', 'fit_fwhm',
+                 'data_properties') and rep in ('float32', '>f4'):
         rtol, atol = 2e-3, 2e-3
     return _compare(base, out, rtol, atol)
 
